@@ -639,7 +639,12 @@ example : (match exAcc.run exAccHist with | .ok s => aget s.data [98] | .error _
     some [[48], [120], [120, 58, 113], [113]] := by decide
 example : (match exAcc.buildGroupKey (accCtx [97, 0, 112] [] none), exAcc.buildGroupKey (accCtx [98, 0, 113] [] none) with
     | .ok k1, .ok k2 => decide (k1 ≠ k2) | _, _ => false) = true := by decide
+/-- hypotheses of `accgroup_comm`: both orders are accepted from the configured aggregator. -/
+example : ∃ s12, exAcc.run [[97, 0, 112], [98, 0, 113]] = .ok s12 := ⟨_, rfl⟩
+example : ∃ s', exAcc.sample [97, 0, 112] = .ok s' := ⟨_, rfl⟩
 example : StrictTotal bLt := bLt_strictTotal
+example : ∀ val : Bytes → Int, StrictTotal (keyLess nvNameSorter val) ∧ StrictTotal (keyLess nvValueSorter val) :=
+  fun val => ⟨nvName_strictTotal val, nvValue_strictTotal val⟩
 example : ∃ res, exAcc.groupsWith bLt [[98], [97]] = .ok res := ⟨_, rfl⟩
 example : ∀ op ∈ [AccOp.addGroup [103] none, AccOp.addData [99] (some exCount) [], AccOp.addData [99] (some exLast) []],
     op.isSample = false := by decide
